@@ -3,6 +3,7 @@ C02 — read-through: every read reflects the backend's current content.
 -/
 import SC.Lemmas.Seq
 import SC.Props.C04
+import SC.Lemmas.Merge
 namespace SC.Props
 open SC
 
@@ -24,5 +25,39 @@ theorem C02_reads_load_first (s : State) (oi : Nat) (b : Bool) (op : Op) (hr : o
     (hs : op.skipsLoad = false) : loadFor s oi b op = loadRoot s oi := by
   have : op.isOverwrite = false := by cases op <;> simp_all [Op.isRead, Op.isOverwrite]
   simp [loadFor, hs, this]
+
+/-- C02, the merge post-condition: whenever `_update(data)` returns normally — for EVERY tree in
+memory (any stale content, any depth) and EVERY data with unique keys other than a bare null —
+the merged tree has exactly the content of the data: same structure, identical scalars
+(constructor and payload) at every leaf, the same key sets in every dict; positions whose value
+changed to null, to a scalar or to the other container kind included.  (Mutual induction over
+the data following the dict loop and the list loop of `_update`.) -/
+theorem C02_merge_post (fam : Fam) {ι : Type} (d : Tr ι) (t : T) (n : Nat) (hd : d.wf = true) (ht : t.wf = true)
+    (hnn : d ≠ .leaf .null) (herr : (updNode fam t d n).err = none) :
+    Eqv (updNode fam t d n).val d ∧ (updNode fam t d n).val.wf = true :=
+  updNode_post fam d t n hd ht hnn herr
+
+/-- C02 at the level of objects: after a load that does not raise, the object's tree has
+exactly the content the backend holds at that moment — whatever was cached before. -/
+theorem C02_load_reflects_backend (s : State) (oi : Nat) (o : Obj) (d : J)
+    (ho : s.objs[oi]? = some o) (hst : s.store o.res = some d)
+    (hd : d.wf = true) (ht : o.root.wf = true) (hnn : d ≠ .leaf .null)
+    (herr : (updNode (s.fam o) o.root d s.next).err = none) :
+    ∃ o', (loadRoot s oi).1.objs[oi]? = some o' ∧ Eqv o'.root d := by
+  have h := C04_load_is_merge s oi o d ho hst
+  cases ho' : (loadRoot s oi).1.objs[oi]? with
+  | none => simp [ho'] at h
+  | some o' =>
+    simp only [ho', Option.map_some, Option.some.injEq] at h
+    exact ⟨o', rfl, h ▸ (updNode_post (s.fam o) d o.root s.next hd ht hnn herr).1⟩
+
+/-- non-vacuity: a stale tree whose child must become null, one whose scalar must become a
+container, and a shrinking list — the merge returns normally and the hypotheses hold. -/
+example :
+    let fam : Fam := ⟨[.requireStringKey, .jsonFormat], [.requireStringKey, .jsonFormat]⟩
+    let t : T := .dict 0 [(.s "a", .dict 1 [(.s "k", .leaf (.int 1))]), (.s "b", .leaf (.int 2)), (.s "l", .list 2 [.leaf (.int 1), .leaf (.int 2)])]
+    let d : J := .dict () [(.s "l", .list () [.leaf (.bool true)]), (.s "a", .leaf .null), (.s "b", .dict () [])]
+    (updNode fam t d 3).err = none ∧ d.wf = true ∧ t.wf = true := by
+  decide
 
 end SC.Props
